@@ -97,6 +97,9 @@ static inline void MapFMIt_postinc(MapFMIt *it)
 }
 
 #define D_SAME_LV(a, b) (*(const unsigned long *)&(a) == *(const unsigned long *)&(b))
+/* twins for the other spelling of an increment (`++it` for `it++` and vice versa): same effect.  X_inc yields the iterator after the step
+ * (exact); X_postinc made from X_inc is void, so a use of its value does not compile (UNDECIDED) instead of being modelled wrongly */
+#define MapFMIt_inc(it_) (MapFMIt_postinc(it_), (it_))      /* pre-increment: the iterator itself, after the step */
 //@function Pomerol::Operator::getMatrixElement(Eigen::Matrix<double, -1, 1, 0, -1, 1> const&, Eigen::Matrix<double, -1, 1, 0, -1, 1> const&, std::vector<boost::dynamic_bitset<unsigned long, std::allocator<unsigned long> >, std::allocator<boost::dynamic_bitset<unsigned long, std::allocator<unsigned long> > > > const&) const as Operator_getMatrixElement_v
 //@contract
 __CPROVER_requires(__CPROVER_is_fresh(self, sizeof(*self)) && !VERIF_thrown)
